@@ -606,6 +606,7 @@ static int upipe_ffmt_check_flow_format(struct upipe *upipe,
             upipe_ffmt_store_bin_input(upipe, upipe_use(input));
         }
     }
+    uref_free(upipe_ffmt->flow_def_requested);
     upipe_ffmt->flow_def_requested = flow_def_dup;
 
     int err = upipe_set_flow_def(upipe_ffmt->first_inner, flow_def);
